@@ -156,7 +156,7 @@ def _swap(modules):
     return saved
 
 
-def generic_replay(func, modules):
+def generic_replay(func, modules, patches=()):
     """replay driver that re-executes the *same harness* concretely against the uninstrumented package:
     the sx API hands out the recorded model values, module references are swapped to the real modules,
     the package's clock is the harness clock.  Reproduced <=> some obligation fails in that run."""
@@ -171,6 +171,11 @@ def generic_replay(func, modules):
         real_time = _time.time
         _time.time = lambda: env_m.clock()()
         rc = real('mpgameserver.connection')
+        patched = []
+        for modname, attr, value in patches:
+            rm = real(modname)
+            patched.append((rm, attr, getattr(rm, attr)))
+            setattr(rm, attr, value)
         try:
             try:
                 func(**cfg)
@@ -183,6 +188,8 @@ def generic_replay(func, modules):
                 return False, 'harness raised in replay: %s' % traceback.format_exc()[-600:]
         finally:
             _time.time = real_time
+            for rm, attr, old in patched:
+                setattr(rm, attr, old)
             core.Engine.cur = prev
             for M, name, val in saved:
                 setattr(M, name, val)
